@@ -2,7 +2,7 @@
 """Writes seeded/RESULTS.md from seeded/*/m*/meta.json."""
 import glob, json, os
 rows = []
-for p in sorted(glob.glob("/verif/seeded/*/m*/meta.json")):
+for p in sorted(glob.glob("/verif/seeded/*/*m[0-9]/meta.json")):
     m = json.load(open(p))
     pid, mk = p.split("/")[-3], p.split("/")[-2]
     chk = m.get("checks_run_against_it", {})
